@@ -184,6 +184,11 @@ pub struct MsgLayout {
 
 /// Layouts for all messages of `msgs` (already psk-modified) for the given DH.
 pub fn layouts(msgs: &[Vec<Tok>], dh: DhKind) -> Vec<MsgLayout> {
+    layouts_with_len(msgs, dh.pub_len())
+}
+
+/// The same for any DH function whose public keys are `pub_len` bytes long.
+pub fn layouts_with_len(msgs: &[Vec<Tok>], pub_len: usize) -> Vec<MsgLayout> {
     let is_psk = msgs.iter().flatten().any(|t| matches!(t, Tok::Psk(_)));
     let mut has_key = false;
     let mut out = Vec::new();
@@ -194,15 +199,15 @@ pub fn layouts(msgs: &[Vec<Tok>], dh: DhKind) -> Vec<MsgLayout> {
         for t in m {
             match t {
                 Tok::E => {
-                    fields.push(Field { kind: FieldKind::E, off, len: dh.pub_len(), encrypted: false });
-                    off += dh.pub_len();
+                    fields.push(Field { kind: FieldKind::E, off, len: pub_len, encrypted: false });
+                    off += pub_len;
                     has_e = true;
                     if is_psk {
                         has_key = true;
                     }
                 },
                 Tok::S => {
-                    let l = dh.pub_len() + if has_key { 16 } else { 0 };
+                    let l = pub_len + if has_key { 16 } else { 0 };
                     fields.push(Field { kind: FieldKind::S, off, len: l, encrypted: has_key });
                     off += l;
                 },
